@@ -623,3 +623,17 @@ package state
 //@ ensures[mismatch-rejected] !(old(configAt(conf)) != nil && old(configAt(conf).GetRaftIndex().ModifyIndex) == cidx) ==> !ok && commits() == old(commits()) && (forall k string :: T_config_entries(k) == old(T_config_entries(k)))
 //@ ensures[reported-iff-committed] commits() == ite(ok, old(commits()) + 1, old(commits()))
 //@ ensures[err-not-ok] err != nil ==> !ok
+
+// ---- C13: a stored legacy intention always carries the precedence computed from its own names
+
+//@ file intention.go
+//@ pure ixnExact(ns string, name string) int = ite(ns == "*", 0, ite(name == "*", 1, 2))
+
+//@ func legacyIntentionSetTxn
+//@ props C13
+//@ results err
+//@ requires ixn != nil
+//@ ensures[stored] err == nil ==> T_connect_intentions(ixn.ID) == ixn
+//@ ensures[precedence-from-names-on-every-write] err == nil ==> ixn.Precedence == 3*ixnExact(ixn.DestinationNS, ixn.DestinationName) + ixnExact(ixn.SourceNS, ixn.SourceName) + 1
+//@ ensures[names-kept] ixn.SourceNS == old(ixn.SourceNS) && ixn.SourceName == old(ixn.SourceName) && ixn.DestinationNS == old(ixn.DestinationNS) && ixn.DestinationName == old(ixn.DestinationName)
+//@ ensures[create-index] err == nil ==> ixn.CreateIndex == ite(old(T_connect_intentions(ixn.ID)) == nil, idx, old(T_connect_intentions(ixn.ID).CreateIndex))
